@@ -183,6 +183,37 @@ def geometry3_histories(tier):
     return out
 
 
+def geometry4_histories(tier):
+    """TRANSPOSE with every permutation (ranks 2..4), binary elementwise operators whose second operand is a variable tensor of broadcast shape"""
+    import itertools
+
+    quick = tier == "quick"
+    out = []
+
+    def add(start, steps):
+        h = dict(start=(list(start[0]), start[1]), steps=list(steps))
+        if nets.build(h, 0) is not None:
+            out.append(h)
+
+    for st in (((1, 4, 6, 8), "int8"), ((1, 3, 5, 17), "uint8"), ((1, 4, 4, 8), "int16"), ((2, 3, 4, 8), "int8"), ((1, 1, 7, 16), "int8"), ((1, 9, 1, 4), "int8")):
+        for perm in itertools.permutations(range(4)):
+            p = "".join(map(str, perm))
+            add(st, ["transposeg.p" + p])
+            if not quick:
+                add(st, ["conv1x1", "transposeg.p" + p, "relu"])
+    for st in (((6, 20), "int8"), ((4, 5, 8), "int8")):
+        for perm in itertools.permutations(range(len(st[0]))):
+            add(st, ["transposeg.p" + "".join(map(str, perm))])
+    for st in ((((1, 4, 6, 8), "int8"), ((1, 3, 5, 17), "uint8")) if quick else (((1, 4, 6, 8), "int8"), ((1, 3, 5, 17), "uint8"), ((1, 4, 4, 8), "int16"), ((1, 8, 8, 32), "int8"))):
+        for opn in ("ADD", "SUB", "MUL", "MINIMUM", "MAXIMUM"):
+            for code in ("c", "w", "h", "hw", "o"):
+                for order in "xk":
+                    add(st, ["ewv.%s.%s.%s" % (opn, code, order)])
+                    if not quick:
+                        add(st, ["conv1x1", "ewv.%s.%s.%s" % (opn, code, order), "relu"])
+    return out
+
+
 def default_plan(tier, scale=1.0):
     mids = ["tap", "branch_cpu", "branch_npu"]
     big = [((1, 32, 32, 16), "int8")]
@@ -210,7 +241,7 @@ def default_plan(tier, scale=1.0):
                 ("cpualias4xC2", cpualias, "c2"),
                 ("G1xCZ", nets.STARTS_Q[:2], nets.SIGMA_Q, 1, "cZ"),
                 ("regblockdepxCP", reg_blockdep, "cP"), ("regtilepadxC8", reg_tilepad, "c8"), ("regupcascadexC8", reg_upcascade, "c8"), ("regifacexC2", reg_iface, "c2"),
-                ("geometryxC1", geometry_histories(tier), "c1"), ("geometry2xC1", geometry2_histories(tier), "c1"), ("geometry3xC1", geometry3_histories(tier), "c1"),
+                ("geometryxC1", geometry_histories(tier), "c1"), ("geometry2xC1", geometry2_histories(tier), "c1"), ("geometry3xC1", geometry3_histories(tier), "c1"), ("geometry4xC1", geometry4_histories(tier), "c1"),
                 ("perfcascade3xCP", histories(big, perf_ops, 3), "cP")]
     return [("G1xC24", nets.STARTS_T, nets.SIGMA_T, 1, "c24"),
             ("resizefirstxCR", resize_first + [dict(start=([1, 16, 16, 8], "int8"), steps=h["steps"]) for h in resize_first], "cR"),
@@ -218,7 +249,7 @@ def default_plan(tier, scale=1.0):
             ("G2xC8", nets.STARTS_Q, nets.SIGMA_Q, 2, "c8"),
             ("chain3xC4", nets.STARTS_Q[:2], nets.SIGMA_C, 3, "c4"),
             ("perfcascade3xCP", histories(big + [((1, 48, 48, 8), "int8")], nets.SIGMA_C, 3), "cP"),
-            ("geometryxC2", geometry_histories(tier), "c2"), ("geometry2xC4", geometry2_histories(tier), "c4"), ("geometry3xC4", geometry3_histories(tier), "c4"), ("cpualias4xC8", cpualias, "c8"), ("G1xCZ", nets.STARTS_T, nets.SIGMA_T, 1, "cZ"),
+            ("geometryxC2", geometry_histories(tier), "c2"), ("geometry2xC4", geometry2_histories(tier), "c4"), ("geometry3xC4", geometry3_histories(tier), "c4"), ("geometry4xC4", geometry4_histories(tier), "c4"), ("cpualias4xC8", cpualias, "c8"), ("G1xCZ", nets.STARTS_T, nets.SIGMA_T, 1, "cZ"),
             ("fork3xC8", fork_histories(nets.STARTS_Q, nets.SIGMA_C + ["cpu_neg", "concat", "split"], mids, nets.SIGMA_C + ["cpu_neg", "concat", "reshape"]), "c8")]
 
 
